@@ -462,7 +462,7 @@ func RunBook(sc *Scenario) *BookOut {
 				out.violate("C19", cls, label+" vs "+firstLabel+": "+d)
 			}
 			for k, v := range got {
-				out.Hash = (out.Hash ^ (k * uint64(v+1))) * 1099511628211
+				out.Hash += mix64(k ^ uint64(v+1)*0x9e3779b97f4a7c15) // order independent
 			}
 		}
 	}
@@ -511,6 +511,14 @@ func contentOf(b *openingbook.Book) bookContent {
 		}
 		sort.Strings(ms)
 		out[k] = fmt.Sprintf("%d|%s", e.Counter, strings.Join(ms, ","))
+	}
+	return out
+}
+
+func countsOf(b *openingbook.Book) bookContent {
+	out := bookContent{}
+	for k, e := range b.VerifEntries() {
+		out[k] = fmt.Sprintf("%d", e.Counter)
 	}
 	return out
 }
@@ -594,16 +602,20 @@ func RunCache(sc *Scenario) *CacheOut {
 		out.violate("harness", fmt.Sprintf("source build failed: %v hung=%v panic=%s", err0, hung, pan))
 		return out
 	}
-	want := contentOf(refB)
+	// Books built from the source in different runs agree in positions and
+	// visit counts; which parent links to a transposed position depends on
+	// the schedule of the build workers and is not part of the statement.
+	want := countsOf(refB)
 	// build with cache: writes the cache file
 	b1, err1, hung, pan := initWithWatch(dir, file, true)
 	if hung || pan != "" || err1 != nil {
 		out.violate("cache_build_failed", fmt.Sprintf("first initialization with cache: err=%v hung=%v panic=%s", err1, hung, pan))
 		return out
 	}
-	if !sameContent(contentOf(b1), want) {
+	if !sameContent(countsOf(b1), want) {
 		out.violate("cache_build_differs", "book built with caching enabled differs from the book built from the source")
 	}
+	saved := contentOf(b1)
 	good, err := os.ReadFile(cache)
 	if err != nil {
 		out.violate("cache_not_written", err.Error())
@@ -615,8 +627,9 @@ func RunCache(sc *Scenario) *CacheOut {
 	out.Cases++
 	if hung || pan != "" || err2 != nil {
 		out.violate("intact_cache_load_failed", fmt.Sprintf("err=%v hung=%v panic=%s", err2, hung, pan))
-	} else if !sameContent(contentOf(b2), want) {
-		out.violate("cache_roundtrip_differs", fmt.Sprintf("book loaded from its cache (%d entries) differs from the source-built book (%d entries)", len(contentOf(b2)), len(want)))
+	} else if !sameContent(contentOf(b2), saved) {
+		// saved and loaded back: identical including all links
+		out.violate("cache_roundtrip_differs", fmt.Sprintf("book loaded from its cache (%d entries) differs from the book that was saved (%d entries)", len(contentOf(b2)), len(saved)))
 	}
 
 	try := func(kind string, at int, data []byte, mode string) bool {
@@ -633,7 +646,16 @@ func RunCache(sc *Scenario) *CacheOut {
 		}
 		out.Cases++
 		out.Faults["F9_"+kind]++
-		out.Distinct[fmt.Sprintf("%s@%d", kind, at)] = true
+		// (offsets as permille of the file: its exact length depends on the
+		// schedule-dependent links)
+		pm := 0
+		if len(good) > 1 {
+			pm = (at*1000 + len(good) - 2) / (len(good) - 1) // inverse of offsetAt
+		}
+		if kind == "truncate" && bs.AllPrefixes {
+			pm = 0 // the exhaustive prefix sweep counts once per book
+		}
+		out.Distinct[fmt.Sprintf("%s@%d", kind, pm)] = true
 		undec := mode != "file" || !gobDecodable(data)
 		if undec {
 			out.Undecodable++
@@ -654,8 +676,8 @@ func RunCache(sc *Scenario) *CacheOut {
 				out.violate("init_error", desc+": "+e.Error())
 				return true
 			}
-			if undec && !sameContent(contentOf(b), want) {
-				out.violate("damaged_cache_wrong_book", desc+fmt.Sprintf(": resulting book has %d entries, source-built book %d", len(contentOf(b)), len(want)))
+			if undec && !sameContent(countsOf(b), want) {
+				out.violate("damaged_cache_wrong_book", desc+fmt.Sprintf(": resulting book has %d entries, source-built book %d", len(countsOf(b)), len(want)))
 				return true
 			}
 			if rep == 0 && mode == "dir" {
@@ -666,6 +688,14 @@ func RunCache(sc *Scenario) *CacheOut {
 	}
 
 	rng := NewPRNG(sc.Seed, "cache")
+	// offsets are given as permille of the file length (its exact length
+	// depends on schedule-dependent links)
+	offsetAt := func(at int) int {
+		if len(good) < 2 {
+			return 0
+		}
+		return (at % 1001) * (len(good) - 1) / 1000
+	}
 	// crash points of the non-atomic save: every prefix for small caches
 	if bs.AllPrefixes {
 		out.Exhaustive = len(good) <= 64*1024
@@ -682,12 +712,12 @@ func RunCache(sc *Scenario) *CacheOut {
 	for _, d := range bs.Damage {
 		switch d.Kind {
 		case "truncate":
-			k := d.At % (len(good) + 1)
+			k := offsetAt(d.At)
 			if !try("truncate", k, good[:k], "file") {
 				return out
 			}
 		case "flip":
-			k := d.At % len(good)
+			k := offsetAt(d.At)
 			data := append([]byte{}, good...)
 			data[k] ^= 1 << uint(d.Bit%8)
 			if !try("bitflip", k, data, "file") {
@@ -720,7 +750,7 @@ func RunCache(sc *Scenario) *CacheOut {
 				return out
 			}
 		case "zerofill":
-			k := d.At % len(good)
+			k := offsetAt(d.At)
 			data := append([]byte{}, good...)
 			for i := k; i < len(data) && i < k+d.Len%64+1; i++ {
 				data[i] = 0
